@@ -109,7 +109,7 @@ class Monitors:
                       'sim.state.apply_gate differs from multiplying by the embedded operator', {'n': n, 'targets': tg, 'op': op})
             ctx.check(np.array_equal(to_numpy(c.args[0]), c.snap), 'apply_gate/input-modified', 'apply_gate modified its input state', {'targets': tg})
 
-        ctx.attach(S, 'apply_gate', post=post_apply_gate, pre=pre_copy0, immutable_args=True)
+        ctx.attach(S, 'apply_gate', post=post_apply_gate, pre=pre_copy0, immutable_args=True, normalize=True)
 
         def post_control(c):
             if c.exc is not None:
@@ -129,7 +129,7 @@ class Monitors:
             ctx.check(np.array_equal(to_numpy(c.args[0]), c.snap), 'apply_control_n_gate/input-modified', 'apply_control_n_gate modified its input state',
                       {'controls': cs, 'targets': tg})
 
-        ctx.attach(S, 'apply_control_n_gate', post=post_control, pre=pre_copy0, immutable_args=True)
+        ctx.attach(S, 'apply_control_n_gate', post=post_control, pre=pre_copy0, immutable_args=True, normalize=True)
 
         def post_prob(c):
             if c.exc is not None:
@@ -142,7 +142,7 @@ class Monitors:
             ctx.close(c.result, ref, 1e-12 * max(1.0, float(np.abs(to_numpy(q0)).max())**2) * 64, 'reduce_to_probability/born-marginal',
                       'reduce_to_probability differs from the Born marginal', {'n': n, 'keep': sorted(keep)})
 
-        ctx.attach(S, 'reduce_to_probability', post=post_prob, immutable_args=True)
+        ctx.attach(S, 'reduce_to_probability', post=post_prob, immutable_args=True, normalize=True)
 
         def post_inner(c):
             if c.exc is not None:
@@ -164,7 +164,7 @@ class Monitors:
             ctx.close(c.result, np.array(ref), 1e-11 * scale, 'inner_product/value', '<psi0|prod O|psi1> differs from the embedded product',
                       {'n': n, 'terms': [[tuple(int(x) for x in it[1:]) for it in term] for term in op_list]})
 
-        ctx.attach(S, 'inner_product_psi0_O_psi1', post=post_inner, immutable_args=True)
+        ctx.attach(S, 'inner_product_psi0_O_psi1', post=post_inner, immutable_args=True, normalize=True)
 
         # ---- density matrix
         def post_dm_apply(c):
@@ -181,7 +181,7 @@ class Monitors:
                       {'n': n, 'targets': tg, 'index_type': type(index).__name__})
             ctx.check(np.array_equal(to_numpy(c.args[0]), c.snap), 'dm.apply_gate/input-modified', 'dm.apply_gate modified its input', {'targets': tg})
 
-        ctx.attach(D, 'apply_gate', post=post_dm_apply, pre=pre_copy0, point='numqi.sim.dm.apply_gate', immutable_args=True)
+        ctx.attach(D, 'apply_gate', post=post_dm_apply, pre=pre_copy0, point='numqi.sim.dm.apply_gate', immutable_args=True, normalize=True)
 
         def post_dm_expect(c):
             if c.exc is not None:
@@ -195,7 +195,7 @@ class Monitors:
             ctx.close(np.asarray(c.result).reshape(()), np.asarray(ref).reshape(()), self.tol(op, dm), 'dm.operator_expectation/trace',
                       'operator_expectation differs from Tr(rho O_embedded)', {'n': n, 'targets': tg})
 
-        ctx.attach(D, 'operator_expectation', post=post_dm_expect, point='numqi.sim.dm.operator_expectation', immutable_args=True)
+        ctx.attach(D, 'operator_expectation', post=post_dm_expect, point='numqi.sim.dm.operator_expectation', immutable_args=True, normalize=True)
 
         # ---- Circuit: generic monitor from the circuit's own gate list (the dispatch loop + simulator)
         Circuit = numqi.sim.Circuit
@@ -337,13 +337,20 @@ def wiring_cases(ctx, mon, numqi, n, part=0, nparts=1, exhaustive=True, ncases=0
                 forms = _index_forms(rng, tg)
                 form = forms[int(rng.integers(len(forms)))]
                 if len(cs) == 0:
-                    if rng.random() < 0.15:
+                    u2 = rng.random()
+                    if u2 < 0.15:
                         ctx.history_probe('apply_gate', S.apply_gate, q0, op, form)
+                    elif u2 < 0.3:
+                        S.apply_gate(q0=q0, op=op, index=form)  # keyword form
                     else:
                         S.apply_gate(q0, op, form)
                 else:
                     cform = [set(cs), tuple(cs), list(cs)] + ([int(cs[0])] if len(cs) == 1 else [])
-                    S.apply_control_n_gate(q0, op, cform[int(rng.integers(len(cform)))], form)
+                    cf = cform[int(rng.integers(len(cform)))]
+                    if rng.random() < 0.2:
+                        S.apply_control_n_gate(q0=q0, op=op, ind_control_set=cf, ind_target=form)  # keyword form
+                    else:
+                        S.apply_control_n_gate(q0, op, cf, form)
     return len(cases)
 
 
@@ -484,6 +491,8 @@ def random_program(ctx, numqi, n, length, allow_placeholder=True):
             name = PARAM1[int(rng.integers(len(PARAM1)))]
             q, = pick(1)
             params = tuple(float(x) for x in rng.uniform(0, 2 * np.pi, size=3 if name == 'u3' else 1))
+            if rng.random() < 0.25:  # exact special values: a parametrized gate that is exactly the identity / a Pauli
+                params = tuple(float(rng.choice([0.0, np.pi / 2, np.pi, 2 * np.pi])) for _ in params)
             g = getattr(circ, name)(q, params if name == 'u3' else params[0])
             log.append((rq.gate_matrix(name, params), (q,), ()))
             gates_made.append([g, name, params, 1, [len(log) - 1]])
